@@ -430,6 +430,85 @@ pub fn nested_cfg(rng: &mut Rng) -> (Cfg, Vec<bool>) {
     (Cfg { nn: depth, nt, rules, start: 0 }, force)
 }
 
+/// Chains of nonterminals that reach the empty string (or a terminal) only through each other,
+/// used where the symbol after the chain decides a conflict; declaration order is left to
+/// `permute_declarations`.  Fix-points that stop a round early, or FIRST/nullable computations
+/// that depend on declaration order, show here.
+pub fn nullable_chain_cfg(rng: &mut Rng) -> (Cfg, Vec<bool>) {
+    let k = rng.range(2, 5);
+    // nonterminals: 0 = S, 1 = T, 2 = U, 3.. = chain A1..Ak ; terminals: 0 = t, 1 = x, 2 = y, 3 = z
+    let a = |i: usize| Sym::N(3 + i);
+    let mut rules = vec![];
+    match rng.below(5) {
+        0 => {
+            rules.push(Rule { lhs: 0, rhs: vec![Sym::N(1), a(0), Sym::T(1)] });
+            rules.push(Rule { lhs: 0, rhs: vec![Sym::N(2), Sym::T(1)] });
+        }
+        1 => {
+            rules.push(Rule { lhs: 0, rhs: vec![Sym::N(1), a(0), Sym::T(1)] });
+            rules.push(Rule { lhs: 0, rhs: vec![Sym::N(2), Sym::T(2)] });
+        }
+        2 => {
+            rules.push(Rule { lhs: 0, rhs: vec![a(0), Sym::T(1)] });
+            rules.push(Rule { lhs: 0, rhs: vec![Sym::N(1), a(0), a(0), Sym::T(2)] });
+        }
+        3 => {
+            rules.push(Rule { lhs: 0, rhs: vec![Sym::N(1), a(0), a(k - 1), Sym::T(1)] });
+            rules.push(Rule { lhs: 0, rhs: vec![Sym::N(2), a(k - 1), Sym::T(2)] });
+        }
+        _ => {
+            rules.push(Rule { lhs: 0, rhs: vec![a(0), Sym::N(1)] });
+            rules.push(Rule { lhs: 0, rhs: vec![Sym::N(2), a(0), Sym::T(1)] });
+        }
+    }
+    rules.push(Rule { lhs: 1, rhs: vec![Sym::T(0)] });
+    rules.push(Rule { lhs: 2, rhs: vec![Sym::T(0)] });
+    for i in 0..k {
+        if i + 1 < k {
+            rules.push(Rule { lhs: 3 + i, rhs: vec![a(i + 1)] });
+            if rng.chance(0.2) {
+                rules.push(Rule { lhs: 3 + i, rhs: vec![Sym::T(3)] });
+            }
+            if rng.chance(0.15) {
+                rules.push(Rule { lhs: 3 + i, rhs: vec![a(i + 1), a(i + 1)] });
+            }
+        } else {
+            match rng.below(4) {
+                0 => rules.push(Rule { lhs: 3 + i, rhs: vec![Sym::T(3)] }),
+                1 => {
+                    rules.push(Rule { lhs: 3 + i, rhs: vec![] });
+                    rules.push(Rule { lhs: 3 + i, rhs: vec![Sym::T(3)] });
+                }
+                _ => rules.push(Rule { lhs: 3 + i, rhs: vec![] }),
+            }
+        }
+    }
+    let nn = 3 + k;
+    let force = (0..nn).map(|_| rng.chance(0.3)).collect();
+    (Cfg { nn, nt: 4, rules, start: 0 }, force)
+}
+
+/// Relabel nonterminals and terminals by random permutations: the same grammar with a different
+/// declaration order of nonterminals (rules stay grouped per nonterminal, alternatives keep their
+/// relative order) and of terminals.
+pub fn permute_declarations(cfg: &Cfg, force: &[bool], rng: &mut Rng) -> (Cfg, Vec<bool>) {
+    let mut pn: Vec<usize> = (0..cfg.nn).collect();
+    let mut pt: Vec<usize> = (0..cfg.nt).collect();
+    rng.shuffle(&mut pn);
+    rng.shuffle(&mut pt);
+    let map = |s: &Sym| match s {
+        Sym::N(i) => Sym::N(pn[*i]),
+        Sym::T(i) => Sym::T(pt[*i]),
+    };
+    let mut rules: Vec<Rule> = cfg.rules.iter().map(|r| Rule { lhs: pn[r.lhs], rhs: r.rhs.iter().map(map).collect() }).collect();
+    rules.sort_by_key(|r| r.lhs); // stable: alternatives keep their order
+    let mut f = vec![false; cfg.nn];
+    for (i, x) in force.iter().enumerate().take(cfg.nn) {
+        f[pn[i]] = *x;
+    }
+    (Cfg { nn: cfg.nn, nt: cfg.nt, rules, start: pn[cfg.start] }, f)
+}
+
 /// Embed `inner` into a random context: wrap its start symbol in a bracket,
 /// a list or a sequence with fresh terminals.
 pub fn embed(rng: &mut Rng, inner: &Cfg, inner_force: &[bool]) -> (Cfg, Vec<bool>) {
@@ -486,6 +565,7 @@ pub enum Source {
     Lr1NotLalrFamily,
     SharedContexts,
     Nested,
+    NullableChain,
     Enumerated,
 }
 
@@ -500,6 +580,7 @@ impl Source {
             Source::Lr1NotLalrFamily => "lr1-not-lalr-family",
             Source::SharedContexts => "shared-contexts",
             Source::Nested => "nested-recursion",
+            Source::NullableChain => "nullable-chain",
             Source::Enumerated => "enumerated",
         }
     }
@@ -511,7 +592,20 @@ pub fn grammar_for_case(rng: &mut Rng, index: u64) -> (Source, Cfg, Vec<bool>) {
         let (cfg, _, _, force) = cfg_from_text(CORPUS[index as usize].1);
         return (Source::Corpus, cfg, force);
     }
-    match rng.below(24) {
+    let (source, cfg, force) = grammar_for_case_inner(rng);
+    if rng.chance(0.5) {
+        let (c, f) = permute_declarations(&cfg, &force, rng);
+        return (source, c, f);
+    }
+    (source, cfg, force)
+}
+
+fn grammar_for_case_inner(rng: &mut Rng) -> (Source, Cfg, Vec<bool>) {
+    match rng.below(26) {
+        24..=25 => {
+            let (c, f) = nullable_chain_cfg(rng);
+            (Source::NullableChain, c, f)
+        }
         20..=22 => {
             let (c, f) = context_cfg(rng);
             (Source::SharedContexts, c, f)
